@@ -20,10 +20,11 @@ for d in sorted(glob.glob("/verif/seeded/*/")):
     subprocess.run("cp %s/seeded_demo.rs %s/tests/seeded_demo.rs" % (d, WT), shell=True, check=True)
     ct = open(d + "cargo_toml.diff").read() if os.path.exists(d + "cargo_toml.diff") else ""
     m = re.search(r"\+required-features = (\[.*\])", ct)
+    nh = re.search(r"\+harness = false", ct)
     with open(WT + "/Cargo.toml", "a") as f:
-        f.write('\n[[test]]\nname = "seeded_demo"\n' + ("required-features = %s\n" % m.group(1) if m else ""))
+        f.write('\n[[test]]\nname = "seeded_demo"\n' + ("harness = false\n" if nh else "") + ("required-features = %s\n" % m.group(1) if m else ""))
     rc, out = sh("cargo test -j 6 --offline --features %s --test seeded_demo 2>&1 | tail -30" % FEAT)
-    res["demo_without_change"] = "pass" if re.search(r"test result: ok", out) and not re.search(r"test result: FAILED", out) else "FAIL"
+    res["demo_without_change"] = "pass" if (re.search(r"test result: ok", out) or (nh and "error: test failed" not in out and "Running" in out)) and not re.search(r"test result: FAILED", out) else "FAIL"
     rc, out = sh("git apply %s/patch.diff" % d)
     res["applies"] = rc == 0
     if rc == 0:
@@ -35,8 +36,8 @@ for d in sorted(glob.glob("/verif/seeded/*/")):
                                  "failed_tests": sorted(set(re.findall(r"^test (\S+) \.\.\. FAILED", out, flags=re.M)))}
         rc, out2 = sh("cargo test -j 6 --offline --features %s --lib 2>&1 | grep -E '^test result'" % FEAT)
         res["lib_all_features"] = out2.strip()[:80]
-        rc, out3 = sh("cargo test -j 6 --offline --features %s --test seeded_demo 2>&1 | grep -E '^test |test result|panicked' | head -12" % FEAT)
-        res["demo_with_change"] = "FAIL" if re.search(r"test result: FAILED|panicked|FAILED", out3) else "pass"
+        rc, out3 = sh("cargo test -j 6 --offline --features %s --test seeded_demo 2>&1 | grep -E '^test |test result|panicked|error: test failed' | head -12" % FEAT)
+        res["demo_with_change"] = "FAIL" if re.search(r"test result: FAILED|panicked|FAILED|error: test failed", out3) else "pass"
         res["demo_output"] = out3[:700]
     json.dump(res, open(d + "confirm.json", "w"), indent=1)
     print(sid, {k: v for k, v in res.items() if k not in ("demo_output",)})
